@@ -7,6 +7,7 @@ CONSTANTS
   LookupTol = "exact"
   DoEmit = TRUE
 INVARIANT Theorems
+INVARIANT Theorems2Lite
 INVARIANT LookupRight
 CONSTRAINT Emit
 CHECK_DEADLOCK FALSE
